@@ -271,6 +271,55 @@ def _step_rule_keystream(ctx, rep, fn, direction, keylen, se, tr, prev):
         if add[0] == "binop" and add[1] == "Add":
             a_, b_ = add[2], add[3]
             good_idx = (widened_idx(a_) and len_of_data(b_)) or (widened_idx(b_) and len_of_data(a_))
+    if not good_idx and e3 is not None:
+        # any other spelling: decide  idx' == (idx0 + len) mod K  over the integers.  Every cast and
+        # every addition on the way must be exact in its machine type (interval check from
+        # idx0 in [its entry invariant], len in [0, isize::MAX]); a reduction `x % m` keeps the
+        # value modulo K exactly when K divides m; what remains must be idx0 + len.
+        import ranges
+        ir = ranges.World(ctx).param_range(fn, 3, True)
+        ir = ranges.meet(ir, (0, 255)) if ir is not None else (0, 255)
+        TR = ranges.TYPE_RANGE
+
+        def zf(t):
+            """(linear form {atom: coeff} modulo K, (lo, hi), type) or None"""
+            if t == idx0:
+                return ({"idx0": 1}, ir, "u8")
+            if len_of_data(t):
+                return ({"len": 1}, (0, ranges.ISIZE_MAX), "usize")
+            if t[0] == "int":
+                return ({1: t[1] % keylen}, (t[1], t[1]), t[2] if len(t) > 2 else "usize")
+            if util.is_call(t) and "From<u8> for u" in t[1] and t[1].endswith("::from") and len(t[2]) == 1:
+                r = zf(strip(t[2][0]))
+                return (r[0], r[1], t[1].split(" for ")[1].split(">")[0]) if r else None
+            if t[0] == "cast" and t[1] == "IntToInt":
+                r = zf(t[2])
+                if r is None or t[3] not in TR or not (TR[t[3]][0] <= r[1][0] and r[1][1] <= TR[t[3]][1]):
+                    return None
+                return (r[0], r[1], t[3])
+            if t[0] == "field" and t[2] == 0 and t[1][0] == "binop" and t[1][1] == "AddWithOverflow":
+                t = ("binop", "Add", t[1][2], t[1][3])
+            if t[0] == "binop" and t[1] == "Add":
+                a, b = zf(t[2]), zf(t[3])
+                if a is None or b is None or a[2] != b[2] or a[2] not in TR:
+                    return None
+                lo, hi = a[1][0] + b[1][0], a[1][1] + b[1][1]
+                if hi > TR[a[2]][1]:
+                    return None
+                lin = dict(a[0])
+                for k_, c_ in b[0].items():
+                    lin[k_] = (lin.get(k_, 0) + c_) % keylen
+                return (lin, (lo, hi), a[2])
+            if t[0] == "binop" and t[1] == "Rem" and t[3][0] == "int" and t[3][1] > 0:
+                a = zf(t[2])
+                if a is None or t[3][1] % keylen != 0:
+                    return None
+                return (a[0], (0, min(a[1][1], t[3][1] - 1)), a[2])
+            return None
+
+        if r3[0] == "binop" and r3[1] == "Rem" and r3[3][:2] == ("int", keylen) or (r3[0] == "cast" and r3[2][0] == "binop" and r3[2][1] == "Rem" and r3[2][3][:2] == ("int", keylen)):
+            z = zf(r3)
+            good_idx = z is not None and {k_: c_ for k_, c_ in z[0].items() if c_} == {"idx0": 1, "len": 1}
     rep.check(good_idx, "step", fn, "index-update", "idx' = ((idx as usize + data.len()) %% %d) as u8, stored once after the loop" % keylen, "index update is %s, expected ((idx as usize + len(data)) mod %d) truncated last" % (arith.show(n3)[:160], keylen), body.loc())
     ok_state = eff.get(4) == phi_prev and len(ins_prev) == 2 and e3 is not None
     rep.check(ok_state, "state-discipline", fn, "only-the-step-writes", "previous value written by the per-byte step only; index written once from the call's length", "index / previous value are also written elsewhere: idx=%s prev=%s" % (show(eff.get(3), maxdepth=2), show(eff.get(4), maxdepth=2)), body.loc())
